@@ -45,6 +45,34 @@ template <class Image> bool same_bytes(Image const& img, std::vector<unsigned ch
 template <class C> inline double num(C const& c) { return (double)(typename gil::channel_traits<C>::value_type)c; }
 template <class B, class Mn, class Mx> inline double num(gil::scoped_channel_value<B, Mn, Mx> const& c) { return (double)(B)c; }
 
+// position in memory (operator[] index) of every colour of pixel type P, in the order of P's colour space:
+// oracles compare per COLOUR, whatever the channel order of source and destination
+template <class P, int K> struct sem_fill {
+    static void go(P& p) {
+        typedef typename gil::channel_type<P>::type ch_t;
+        gil::semantic_at_c<K>(p) = ch_t((typename gil::channel_traits<ch_t>::value_type)(K + 1));
+        sem_fill<P, K - 1>::go(p);
+    }
+};
+template <class P> struct sem_fill<P, -1> { static void go(P&) {} };
+template <class P> std::vector<int> phys_of_colour() {
+    const int NC = gil::num_channels<P>::value;
+    P p;
+    sem_fill<P, NC - 1>::go(p);
+    std::vector<int> m((size_t)NC, -1);
+    for (int c = 0; c < NC; ++c) m[(size_t)((int)num(p[c]) - 1)] = c;
+    return m;
+}
+// channel values of a view in raster order (works for planar views too): used to detect a modified source
+template <class View> std::vector<double> values_of(View const& v) {
+    std::vector<double> out;
+    const int NC = gil::num_channels<View>::value;
+    for (int y = 0; y < v.height(); ++y)
+        for (int x = 0; x < v.width(); ++x)
+            for (int c = 0; c < NC; ++c) out.push_back(num(v(x, y)[c]));
+    return out;
+}
+
 // classes a destination pixel can belong to (the caller names them in the violation key)
 enum { K_UNTOUCHED = 0, K_A = 1, K_B = 2, K_C = 3, K_NCLASS = 4 };
 
